@@ -148,7 +148,7 @@ def run(rec):
     names = list(suites)
     rng = rec.rng
     quick = rec.tier == "quick"
-    rounds = 1 if quick else 8
+    rounds = 1 if quick else 4
     for rd in range(rounds):
         suite = names[(rec.shard + rd) % 3]
         S = suites[suite]
